@@ -13,6 +13,7 @@ import (
 
 	"github.com/smart-core-os/sc-api/go/traits"
 	"github.com/smart-core-os/sc-api/go/types"
+	"github.com/smart-core-os/sc-golang/internal/simhook"
 	"github.com/smart-core-os/sc-golang/pkg/resource"
 	"github.com/smart-core-os/sc-golang/pkg/time/clock"
 )
@@ -136,6 +137,7 @@ func (m *Model) PullActiveMode(ctx context.Context, opts ...resource.ReadOption)
 // The mode.Id should exist in the known Modes of this model or an error will be returned.
 // The mode.StartTime will not be set for you.
 func (m *Model) SetActiveMode(mode *traits.ElectricMode) error {
+	simhook.BeforeLock("electric.mu", &m.mu)
 	m.mu.Lock()
 	defer m.mu.Unlock()
 	if _, ok := m.findMode(mode.Id); !ok {
@@ -150,6 +152,7 @@ func (m *Model) SetActiveMode(mode *traits.ElectricMode) error {
 // Attempting to change to a mode ID that does not exist on this device will result in an error.
 // Updates the StartTime of the mode to the current time if the mode changes.
 func (m *Model) ChangeActiveMode(id string) (*traits.ElectricMode, error) {
+	simhook.BeforeLock("electric.mu", &m.mu)
 	m.mu.Lock()
 	defer m.mu.Unlock()
 
@@ -181,6 +184,7 @@ func (m *Model) changeActiveMode(id string) (*traits.ElectricMode, error) {
 // If this device does not have a normal mode, ErrModeNotFound is returned.
 // Updates the StartTime of the mode to the current time if the mode changes.
 func (m *Model) ChangeToNormalMode() (*traits.ElectricMode, error) {
+	simhook.BeforeLock("electric.mu", &m.mu)
 	m.mu.Lock()
 	defer m.mu.Unlock()
 
@@ -196,6 +200,7 @@ func (m *Model) ChangeToNormalMode() (*traits.ElectricMode, error) {
 // If the mode was found, it is returned with ok == true.
 // Otherwise, the returned mode is unspecified and ok == false.
 func (m *Model) FindMode(id string) (mode *traits.ElectricMode, ok bool) {
+	simhook.BeforeRLock("electric.mu", &m.mu)
 	m.mu.RLock()
 	defer m.mu.RUnlock()
 
@@ -231,6 +236,7 @@ func (m *Model) CreateMode(mode *traits.ElectricMode) (*traits.ElectricMode, err
 		panic("ID field is set")
 	}
 
+	simhook.BeforeLock("electric.mu", &m.mu)
 	m.mu.Lock()
 	defer m.mu.Unlock()
 
@@ -246,6 +252,7 @@ func (m *Model) AddMode(mode *traits.ElectricMode) error {
 		panic("ID field is not set")
 	}
 
+	simhook.BeforeLock("electric.mu", &m.mu)
 	m.mu.Lock()
 	defer m.mu.Unlock()
 
@@ -279,6 +286,7 @@ func (m *Model) createOrAddMode(mode *traits.ElectricMode) (*traits.ElectricMode
 // If the mode specified is the active mode, then ErrDeleteActiveMode is returned and the mode is not deleted.
 // Otherwise, the operation succeeded and nil is returned.
 func (m *Model) DeleteMode(id string, opts ...resource.WriteOption) error {
+	simhook.BeforeLock("electric.mu", &m.mu)
 	m.mu.Lock()
 	defer m.mu.Unlock()
 	return m.deleteMode(id, opts...)
@@ -305,6 +313,7 @@ func (m *Model) deleteMode(id string, opts ...resource.WriteOption) error {
 // The mode to be modified is specified by mode.Id, which must be set.
 // Fields to be modified can be selected using mask - to modify all fields, pass a nil mask.
 func (m *Model) UpdateMode(mode *traits.ElectricMode, opts ...resource.WriteOption) (*traits.ElectricMode, error) {
+	simhook.BeforeLock("electric.mu", &m.mu)
 	m.mu.Lock()
 	defer m.mu.Unlock()
 	return m.updateMode(mode, opts...)
@@ -355,6 +364,7 @@ func (m *Model) PullModes(ctx context.Context, opts ...resource.ReadOption) <-ch
 // NormalMode returns the mode which has Normal == true. A device can have at most 1 such mode.
 // If there is no normal mode on this device, then (nil, false) is returned.
 func (m *Model) NormalMode() (*traits.ElectricMode, bool) {
+	simhook.BeforeRLock("electric.mu", &m.mu)
 	m.mu.RLock()
 	defer m.mu.RUnlock()
 	return m.normalMode()
